@@ -104,6 +104,11 @@ func defectCatalogue() []defect {
 		{"auth-usage", true, func(c *Ctx, s *testService, r *recipe, d time.Duration) { r.authUsage = 7 }},
 		{"auth-key", true, func(c *Ctx, s *testService, r *recipe, d time.Duration) { k := randKey(c, r.et); r.authKey = &k }},
 		{"invalid-flag", true, func(c *Ctx, s *testService, r *recipe, d time.Duration) { r.flags = []byte{0x41, 0x80, 0, 0} }},
+		{"invalid-flag-no-start", true, func(c *Ctx, s *testService, r *recipe, d time.Duration) {
+			// INVALID and no starttime at all (an OPTIONAL field): still a ticket no server may accept
+			r.flags = []byte{0x41, 0x80, 0, 0}
+			r.start = time.Time{}
+		}},
 		{"other-flags", false, func(c *Ctx, s *testService, r *recipe, d time.Duration) { r.flags = []byte{0xfe, 0xff, 0xff, 0xff} }},
 		{"ctime-late", true, func(c *Ctx, s *testService, r *recipe, d time.Duration) { r.ctime = r.ctime.Add(-d - 3*time.Second) }},
 		{"ctime-early", true, func(c *Ctx, s *testService, r *recipe, d time.Duration) { r.ctime = r.ctime.Add(d + 3*time.Second) }},
@@ -374,7 +379,7 @@ func c01(c *Ctx) {
 // defects that write the same recipe field override each other: such pairs are skipped
 var defectField = map[string]string{"start-outside": "start", "start-inside": "start", "start-absent": "start", "end-outside": "end", "end-inside": "end",
 	"flip-ticket": "tktcipher", "trunc-ticket": "tktcipher", "flip-auth": "authcipher", "trunc-auth": "authcipher",
-	"cname-mismatch": "authcname", "cname-prefix": "authcname", "cname-shorter": "authcname", "cname-empty": "authcname", "cname-boundary": "authcname", "multi-component-client": "authcname", "invalid-flag": "flags", "other-flags": "flags", "broken-pac": "authdata", "valid-pac": "authdata", "valid-pac-rodc": "authdata", "pac-bad-signature": "authdata",
+	"cname-mismatch": "authcname", "cname-prefix": "authcname", "cname-shorter": "authcname", "cname-empty": "authcname", "cname-boundary": "authcname", "multi-component-client": "authcname", "invalid-flag": "flags", "invalid-flag-no-start": "flags", "other-flags": "flags", "broken-pac": "authdata", "valid-pac": "authdata", "valid-pac-rodc": "authdata", "pac-bad-signature": "authdata",
 	"ctime-late": "ctime", "ctime-early": "ctime", "ctime-inside": "ctime", "wrong-key": "tktkey", "auth-key": "authkey", "ctime-late-subsecond": "ctime", "end-outside-subsecond": "end", "kvno-plus-256": "kvno", "wrong-kvno": "kvno"}
 
 // The sample PAC names testuser1; a KDC seals a PAC for the client it names in the ticket.  With PAC decoding on the
